@@ -624,6 +624,44 @@ def u24(led, rid, ctx):
     led.floor(rid, "labels decided", n, 3)
 
 
+def u29(led, rid, ctx):
+    """CLAUSE-PASS-THROUGH: add_clause hands the nogood propagator exactly the negation of every
+    predicate it was given: between the `predicates` argument and add_nogood there is nothing but
+    into_iter / map(negation) / collect.  Any other function in that chain rewrites the clause, and
+    its correctness is a theorem about predicates no rule here has checked."""
+    lib = ctx.lib
+    fs = [f for f in lib.fns.values() if f.name == "add_clause" and "ConstraintSatisfactionSolver" in f.defn]
+    if len(fs) != 1:
+        raise AnchorMissing("ConstraintSatisfactionSolver::add_clause")
+    f = fs[0]
+    R = resolver(f)
+    cs = f.calls_named("add_nogood")
+    if not cs:
+        raise AnchorMissing("add_nogood in add_clause")
+    PASS = ("collect", "map", "into_iter", "iter", "copied", "cloned", "into", "from_iter", "to_vec")
+    for c in cs:
+        e = R.operand(c.args[1])
+        names = [x.a.name for x in e.walk() if x.k == "call"]
+        other = [n_ for n_ in names if n_ not in PASS]
+        from_arg = any(x.k == "arg" and x.a == 2 for x in e.walk())
+        led.check(from_arg and not other, rid, "add_clause:chain", c.span, " → ".join(reversed(names)),
+                  "add_clause passes its predicates through %s before they reach add_nogood: the clause that is "
+                  "stored is a rewriting of the clause that was given (merged, filtered or reordered literals)"
+                  % (", ".join(other) or "a value that does not come from the `predicates` argument"))
+        negs = 0
+        for x in e.walk():
+            if x.k == "closure":
+                g = lib.fns.get(x.a)
+                rets = [p.ret for p in SymExec(g).run() if not p.diverged and p.ret is not None] if g else []
+                ok = bool(rets) and all(peel(r, calls=None).k == "call" and peel(r, calls=None).a.name == "not"
+                                        and peel(peel(r, calls=None).b[0], calls=None).k == "arg" for r in rets)
+                negs += 1
+                led.check(ok, rid, "add_clause:negation", c.span, "each predicate is mapped to its negation",
+                          "the closure add_clause maps over its predicates returns %s rather than the negation of "
+                          "its argument" % ([show(r)[:60] for r in rets],))
+        led.check(negs == 1, rid, "add_clause:one-map", c.span, "", "add_clause maps %d closures over its predicates" % negs)
+
+
 def run(ctx, led):
     run_rule(led, "U1", "Infeasible is declared only for a conflict at decision level 0", u1, ctx)
     run_rule(led, "U2", "no fabricated reason reference; None reason only for decisions, assumptions, "
@@ -653,6 +691,8 @@ def run(ctx, led):
     run_rule(led, "U17", "learned nogood ordered by trail position, backjump level = level of the second predicate, loop bound per analysis mode", u17, ctx)
     from . import minimiser
     run_rule(led, "U18", "semantic minimiser: every folding step maps the values a record stands for to exactly those satisfying the folded predicate (decided on all records of a 5-value window)", minimiser.steps_exact, ctx)
+    run_rule(led, "U30", "every Option<bool> evaluator of a predicate (discovered by signature) is sound on all domains of a 5-value universe", predrules.evaluators_sound, ctx)
+    run_rule(led, "U29", "CLAUSE-PASS-THROUGH: add_clause stores exactly the negation of the predicates it was given", u29, ctx)
     run_rule(led, "U28", "SCRATCH-RESET: the semantic minimiser starts every call with empty scratch vectors", minimiser.scratch_reset, ctx)
     run_rule(led, "U19", "semantic minimiser: the emitted predicates describe the record exactly relative to the root domain; holes leave the bounds before redundant holes are dropped", minimiser.emission_exact, ctx)
     from . import C07 as _C07b
